@@ -13,7 +13,9 @@ PROPS = {
              "nested loops with break/continue, early return, arrays, structs, globals, calls); TLC executes spec/NslSem.tla on every case - the language rules are "
              "TLA+ actions, typing comes from NslTypes - and prints the prescribed return value and globals; the driver runs the real compiler and VM and compares "
              "exactly on dyadic rationals. What the statement leaves open is 'ood' in the specification and not judged. Bounded, seeded exploration of programs x "
-             "inputs with a model-checked reference: model checking of the reference plus conformance of the implementation.",
+             "inputs with a model-checked reference: model checking of the reference plus conformance of the implementation. In addition the VM's instruction "
+             "trace of a subset of the runs (hook events: depth, function, pc, opcode, register value) is validated against spec/IRMachine.tla, the linear IR as an "
+             "abstract machine; a diverging step localises a fault and is reported as a note, the verdict stays with the returned value and the globals.",
         note=_TRUST + "Programs are bounded in size; floats are exact dyadic rationals (no rounding behaviour is checked); integers beyond 2^30 are out of the checked domain."),
     "C02": dict(
         claimed=True, level="model_checking",
@@ -22,7 +24,9 @@ PROPS = {
              "generated programs with every language feature the generator has, and a family of representation-boundary constants are compiled at both levels. "
              "accept/reject must agree; the two modules are executed on the VM for every input and compared (value, globals, failures); TLC runs NslSem on each "
              "case, which decides which module is wrong, and IRWellFormed explores all paths of both modules' functions, so an undefined value on a path no input "
-             "takes is reported too.",
+             "takes is reported too. spec/IRMachine.tla validates the instruction traces of optimised modules and executes both modules itself (translation "
+             "validation on the IR's own semantics); differences there are notes that localise a fault. That both levels agree with each other but not with the "
+             "language is outside this property (C01 / C04 judge it) and is printed as a note.",
         note=_TRUST + "Compared only when the unoptimised module succeeds. Constants beyond 2^30 are outside NslSem's exact domain and are judged by the differential comparison alone."),
     "C03": dict(
         claimed=True, level="model_checking",
@@ -47,7 +51,8 @@ PROPS = {
              "included), seeded programs with every generator feature and the optimiser small-scope family are compiled at both optimisation levels with the hooks on; "
              "Pipeline.tla admits: passes in order, nothing after a failed validation pass, optimisation passes iff optimisation is on, a module iff the pipeline "
              "finished, no failure in lowering or in an IR pass once validation succeeded, linking succeeds, and an invocation ends in a value, a division by zero "
-             "or an index out of range. Anything else is an internal error keyed by (stage, exception class, innermost nsl function, opcode).",
+             "or an index out of range. An internal error is a verdict, keyed by (stage, exception class, innermost nsl function, opcode) - number-range exceptions "
+             "by their message; a purely structural deviation (pass order / set) without a failure is a conformance note.",
         note=_TRUST + "Inputs are two type-correct vectors per exported function built from the declared parameter and global types; defined failures are recognised by exception class and failing instruction."),
     "C06": dict(
         claimed=True, level="model_checking",
@@ -168,6 +173,9 @@ PROPS = {
         text="TLC enumerates every text over {character, line break} up to length 10/12 with every offset, every range of every text up to length 7/8 (proving in "
              "the specification that the reported range designates the same characters again), and every layout of a 55-token program over five separators at 3/5 "
              "varied gaps; the prescribed line numbers, line starts, range strings, identifier ranges and composite hulls are compared with SourceMapping, "
-             "Location.__str__, the parser's node locations, the UpdateLocations pass and the text of the redeclaration diagnostic (captured by the hook).",
+             "Location.__str__, the parser's node locations, the compiler's AST passes up to UpdateLocations (compound assignments are rewritten before it) and the text of "
+             "the redeclaration diagnostic (captured by the hook). spec/Lexer.tla scans every text over a 12-character alphabet up to length 4/5 and a list of probe "
+             "texts; the real scanner's tokens must lie at the offsets and on the lines where their characters are (verdict); a different split into tokens is a "
+             "conformance note.",
         note=_TRUST + "Only line breaks matter for positions, so all other characters are one class; the diagnostic may name the identifier or identifier plus initialiser."),
 }
